@@ -395,7 +395,7 @@ func execStream(p *Plan, run *core.Run) {
 		o, m := objs[op.Obj], models[op.Obj]
 		switch op.K {
 		case "write":
-			if m.reading || op.N < 0 || op.N > 100000 {
+			if m.reading || op.N < 0 || op.N > 200000 {
 				continue // Write after Read is a documented panic
 			}
 			chunk := data.Bytes(op.N)
@@ -887,7 +887,7 @@ func directed(tier string) []any {
 		}
 	}
 	for _, lanes := range []int{1, 2, 4} {
-		for _, total := range []int{8191, 8192, 8193, 2*8192 - 1, 2 * 8192, 2*8192 + 1, 3 * 8192, 4*8192 + 1, 5 * 8192, 8*8192 + 1, 9*8192 - 1} {
+		for _, total := range []int{8191, 8192, 8193, 2*8192 - 1, 2 * 8192, 2*8192 + 1, 3 * 8192, 4*8192 + 1, 5 * 8192, 8*8192 + 1, 9*8192 - 1, 9 * 8192, 9*8192 + 1, 12*8192 + 7, 13 * 8192, 17*8192 + 1} {
 			for _, piece := range []int{total, 8192, 8191, 4096, 7919} {
 				p := &Plan{Fam: "k12", Param: lanes, Seed: uint64(total)}
 				for left := total; left > 0; left -= piece {
